@@ -53,6 +53,40 @@ NON_PANDAS_TYPES = {"builtins.list", "numpy.ndarray", "builtins.str",
                     "builtins.int", "builtins.float"}
 
 
+def _python_container(t: T, depth=0) -> bool:
+    """a python list / tuple / dict / set (literal, comprehension, grown in a loop), or an element of one that is itself a tuple / list"""
+    while t.op in ("loopout", "loopvar", "assume", "listappend", "listextend"):
+        t = t.args[1] if t.op == "assume" else (t.args[2] if t.op in ("loopout", "loopvar") else t.args[0])
+    if t.op in ("list", "tuple", "dict", "set", "comp"):
+        return True
+    if t.op == "elem" and depth < 3:
+        items = _put_items(t.args[0])
+        return bool(items) and all(x.op in ("tuple", "list") for x in items)
+    return False
+
+
+def _put_items(c: T):
+    """the terms put into a python list / tuple / comprehension (also when it is grown by append in a loop); [] when unknown"""
+    items = []
+    while c.op in ("loopout", "loopvar", "assume", "listappend", "listextend"):
+        if c.op in ("listappend",):
+            items.append(c.args[1])
+        if c.op == "loopout":
+            for v_ in c.args[3]:
+                while v_.op == "assume":
+                    v_ = v_.args[1]
+                if v_.op == "listappend":
+                    items.append(v_.args[1])
+        c = c.args[1] if c.op == "assume" else (c.args[2] if c.op in ("loopout", "loopvar") else c.args[0])
+    if c.op == "comp":
+        items.append(c.args[1])
+    elif c.op in ("list", "tuple", "set"):
+        items.extend(c.args[0])
+    else:
+        return []
+    return items if all(isinstance(x, T) for x in items) else []
+
+
 class LabelDomain:
     def __init__(self, sources: dict, assume_clean_params=()):
         """sources: {param term: display name}."""
@@ -124,6 +158,13 @@ class LabelDomain:
             if a[0].op == "attr" and a[0].args[1] in ("iloc", "iat") and a[1].op == "const" \
                     and isinstance(const_value(a[1]), int) and _is_reduction(a[0].args[0]):
                 return CLEAN, frozenset()
+            if a[0].op == "elem" and a[1].op == "const" and isinstance(const_value(a[1]), int) and not isinstance(const_value(a[1]), bool):
+                # (name, values) = pair of a list of pairs: the i-th component of the records
+                its = _put_items(a[0].args[0])
+                i_ = const_value(a[1])
+                if its and all(x.op in ("tuple", "list") and -len(x.args[0]) <= i_ < len(x.args[0]) and isinstance(x.args[0][i_], T)
+                               for x in its):
+                    return self._join([v(x.args[0][i_]) for x in its])
             tu = _tuple_unpack(t)
             if tu is not None:
                 recv, meth, i = tu
@@ -178,6 +219,11 @@ class LabelDomain:
             k, p = v(it)
             if k != CLEAN and it.op == "call" and it.args[0].op == "attr" and it.args[0].args[1] == "groupby":
                 return k, p
+            base = it
+            while base.op in ("loopout", "loopvar", "assume", "listappend", "listextend", "upd"):
+                base = base.args[1] if base.op == "assume" else (base.args[2] if base.op in ("loopout", "loopvar") else base.args[0])
+            if base.op in ("list", "tuple", "set", "dict", "comp"):
+                return k, p      # an element of a python container is one of the (possibly labelled) objects put into it
             return CLEAN, frozenset()
         if op in ("loopvar",):
             return v(a[2])
@@ -315,6 +361,8 @@ class LabelDomain:
                     continue
                 elif base.op == "attr" and base.args[1] in ("columns", "index", "shape", "values", "dtypes"):
                     continue   # an Index / tuple / ndarray is subscripted by position
+                elif _python_container(base):
+                    continue   # pair[0], rows[i], table[key]: python containers have no pandas labels of their own
                 ok_, op_ = v(obj)
                 if ok_ != USER:
                     continue
